@@ -52,8 +52,8 @@ TEXT = {
     "C08": {
         "technique": "complete Kani proofs over all ids / MACs / 4-byte names + Verus contracts on id conversions, run-number selectors and wire/pad-column arithmetic; native enumeration of table bijections",
         "design_ref": "DESIGN.md §4 C08",
-        "level_text": "Name grammar (all 2^32 4-byte strings for the ADC16, ADC32 and fixed-name parsers; PadWing and main-event names only bounded, by c08_names), board tables (all MACs, all device ids), readout-index map (all u16, injective), run-number selection (every u32: simulation maps like run 5000, runs before the first map give an error) and the index arithmetic to wires (<256) and pads are proved.",
-        "level_note": _COMMON_NOTE + " The contents of the lazy_static HashMaps are opaque tables (A-MAPS): the 256-wire and 18432-pad bijections are enumerated natively at six run numbers, not proved. The name harnesses for ADC16 / ADC32 / fixed names run in the quick tier (about 75 s together); the PadWing and main-event name harnesses need more than 45 GB / 55 min here and are not registered in any tier (c08_names covers them bounded).",
+        "level_text": "Name grammar (all 2^32 4-byte strings for the ADC16, ADC32 and fixed-name parsers; for PadWing names the reject side -- every 4-byte string that is not PC + two digits -- is proved and the 100 remaining strings are enumerated natively; main-event dispatch only bounded, by c08_names), board tables (all MACs, all device ids), readout-index map (all u16, injective), run-number selection (every u32: simulation maps like run 5000, runs before the first map give an error) and the index arithmetic to wires (<256) and pads are proved.",
+        "level_note": _COMMON_NOTE + " The contents of the lazy_static HashMaps are opaque tables (A-MAPS): the 256-wire and 18432-pad bijections are enumerated natively at six run numbers, not proved. The name harnesses for ADC16 / ADC32 / fixed names run in the quick tier (about 75 s together); the full PadWing and main-event name harnesses need more than 45 GB / 55 min here and are not registered in any tier; name_padwing_reject (18 s) proves the reject side of the PadWing grammar and c08_names enumerates the 100 strings `PCdd` that remain.",
     },
     "C09": {
         "technique": "Verus safety obligations on the extracted index/selector functions and on the four arms of try_from_banks + complete Kani proofs of the extracted calibration closures",
